@@ -42,7 +42,7 @@ def idiom_model(verdict):
     so = site_orderings()
     if any(v is None for v in so.values()):
         return {"skipped": "could not locate all publication sites in the source", "sites": so}
-    cfg = os.path.join(lib.WORK, "MC_MemModel_code.cfg")
+    cfg = os.path.join(lib.WORK, "MC_MemModel_code.p%d.cfg" % os.getpid())
     with open(cfg, "w") as f:
         f.write("SPECIFICATION Spec\nCONSTANTS\n" + "".join("  %s = %s\n" % (k, "TRUE" if v else "FALSE") for k, v in so.items())
                 + "INVARIANT PublicationSafe\nCHECK_DEADLOCK FALSE\n")
